@@ -39,6 +39,16 @@ Record comparison_site := {
   c_nil_safe : bool          (* the condition tests `!= nil &&` first (pointer operand) *)
 }.
 
+(** does the loop over a message list go on after each kind of type-switch clause?  A clause (or the loop body
+    after the switch) that returns unconditionally ends the scan: later messages of the list are not checked *)
+Record scan_facts := {
+  s_after_exec : bool;     (* the MsgExec clause has no unconditional return (the nested result is tested, then the loop goes on) *)
+  s_after_create : bool;
+  s_after_edit : bool;
+  s_after_other : bool;    (* the default clause (if any) has no unconditional return *)
+  s_after_switch : bool    (* no unconditional return in the loop body after the switch *)
+}.
+
 Record wasm_facts := {
   w_validate_basic : bool;       (* msg.ValidateBasic() error is returned *)
   w_signer_is_contract : bool;   (* every signer must equal contractAddr *)
